@@ -680,7 +680,7 @@ func palindromeState(f *ssa.Function) (int, string) {
 		default:
 			st = unknown
 			why = "IsPalindromic is " + short(a.T.String())
-			if len(opaqueParts(a.T, vocabOf(want))) == 0 && localDiff(a.T, want) {
+			if len(opaqueParts(a.T, vocabOf(want, "call[poly/transform.Complement](x)", "call[poly/transform.Reverse](x)"))) == 0 && localDiff(a.T, want) {
 				return broken, "IsPalindromic compares " + short(a.T.String()) + "; want s == ReverseComplement(s)"
 			}
 		}
